@@ -9,8 +9,9 @@ try:
 except ImportError:
     NOT_APPLICABLE = {}
 ALL = ["C%02d" % i for i in range(1, 21)]
-GENERIC = (" Generic obligation of every check (RANGE-0): no loop or comprehension of a function the rules analyse iterates a bounded slice of a "
-           "collection, so what the rules state for every item is done for all of them.")
+GENERIC = (" Generic obligations of every check: (RANGE-0): no loop or comprehension of a function the rules analyse iterates a bounded slice of a "
+           "collection, so what the rules state for every item is done for all of them; (TRUTHY-0) no enumerate / range index is tested by truthiness; "
+           "(NAME-0) every delay name an analysed class cancels, checks or runs is a name it arms.")
 checks = []
 for p in ALL:
     if p not in CLAIMS:
